@@ -519,4 +519,108 @@ theorem hkdf_length (h : CryptoLaws c) (a : HashAlg) (salt ikm info : Bytes) (le
 
 end ops
 
+/-! ## structure of HMAC / HKDF / CMAC beyond unfolding (additions, phase 2) -/
+
+section macs
+variable {c : CryptoOps}
+
+theorem hashSize_le_block (a : HashAlg) : a.size ≤ a.blockSize := by
+  cases a <;> simp [HashAlg.size, HashAlg.blockSize]
+
+/-- RFC 2104 key normalisation: a key longer than one block is replaced by its digest -/
+theorem hmac_long_key (h : CryptoLaws c) (a : HashAlg) (k m : Bytes) (hk : k.length > a.blockSize) :
+    hmac c a k m = hmac c a (c.hash a k) m := by
+  have hs := hashSize_le_block a
+  have e : hmacKey0 c a k = hmacKey0 c a (c.hash a k) := by
+    have : ¬ a.size > a.blockSize := by omega
+    simp only [hmacKey0, hk, if_true, h.hash_len, this, if_false]
+  simp only [hmac, e]
+
+/-- … and a key of at most one block may be extended by zero bytes up to the block size without changing the MAC -/
+theorem hmac_key_zero_pad (a : HashAlg) (k m : Bytes) (j : Nat) (hk : k.length + j ≤ a.blockSize) :
+    hmac c a (k ++ zeros j) m = hmac c a k m := by
+  have e : hmacKey0 c a (k ++ zeros j) = hmacKey0 c a k := by
+    have h1 : ¬ (k.length + j > a.blockSize) := by omega
+    have h2 : ¬ k.length > a.blockSize := by omega
+    have h3 : a.blockSize - (k.length + j) = (a.blockSize - k.length) - j := by omega
+    have h4 : j + (a.blockSize - k.length - j) = a.blockSize - k.length := by omega
+    simp only [hmacKey0, zeros, List.length_append, List.length_replicate, h1, h2, if_false, List.append_assoc,
+      List.replicate_append_replicate, h3, h4]
+  simp only [hmac, e]
+
+/-- RFC 5869 §2.2: an absent / empty salt is a string of `HashLen` zeros — and under HMAC that is the empty key -/
+theorem hkdfExtract_empty_salt (a : HashAlg) (ikm : Bytes) :
+    hkdfExtract c a [] ikm = hmac c a (zeros a.size) ikm ∧ hkdfExtract c a [] ikm = hmac c a [] ikm := by
+  have := hmac_key_zero_pad (c := c) a [] ikm a.size (by simpa using hashSize_le_block a)
+  simp only [List.nil_append] at this
+  exact ⟨by simp [hkdfExtract], by simp [hkdfExtract, this]⟩
+
+theorem hkdfExpandAux_take (h : CryptoLaws c) (a : HashAlg) (prk info : Bytes) :
+    ∀ (n k i : Nat) (prev : Bytes),
+      (hkdfExpandAux c a prk info (n + k) i prev).take (a.size * n) = hkdfExpandAux c a prk info n i prev
+  | 0, _, _, _ => by simp [hkdfExpandAux]
+  | n + 1, k, i, prev => by
+    have e : n + 1 + k = (n + k) + 1 := by omega
+    have hl : (hmac c a prk (prev ++ info ++ [UInt8.ofNat i])).length = a.size := hmac_length h a prk _
+    rw [e]
+    simp only [hkdfExpandAux]
+    rw [List.take_append, hl, List.take_of_length_le (by rw [hl]; rw [Nat.mul_add]; omega)]
+    have e2 : a.size * (n + 1) - a.size = a.size * n := by rw [Nat.mul_add]; omega
+    rw [e2, hkdfExpandAux_take h a prk info n k]
+
+/-- HKDF output for a shorter length is a prefix of the output for a longer one (same salt, IKM, info) -/
+theorem hkdf_prefix (h : CryptoLaws c) (a : HashAlg) (salt ikm info : Bytes) (len len' : Nat) (hl : len ≤ len') :
+    hkdf c a salt ikm info len = (hkdf c a salt ikm info len').take len := by
+  have hs : 0 < a.size := by cases a <;> simp [HashAlg.size]
+  simp only [hkdf, hkdfExpand]
+  generalize hkdfExtract c a salt ikm = prk
+  have hn : (len + a.size - 1) / a.size ≤ (len' + a.size - 1) / a.size := Nat.div_le_div_right (by omega)
+  obtain ⟨k, hk⟩ := Nat.exists_eq_add_of_le hn
+  have ht := hkdfExpandAux_take h a prk info ((len + a.size - 1) / a.size) k 1 []
+  rw [← hk] at ht
+  rw [← ht, List.take_take, List.take_take]
+  have h1 := Nat.div_add_mod (len + a.size - 1) a.size
+  have h2 := Nat.mod_lt (len + a.size - 1) hs
+  have : len ≤ a.size * ((len + a.size - 1) / a.size) := by omega
+  congr 1
+  omega
+
+/-- the first block of output keying material is `HMAC(PRK, info ‖ 0x01)` -/
+theorem hkdf_first_block (a : HashAlg) (salt ikm info : Bytes) (len : Nat) (h0 : 0 < len) (h1 : len ≤ a.size) :
+    hkdf c a salt ikm info len = (hmac c a (hkdfExtract c a salt ikm) (info ++ [1])).take len := by
+  have e : (len + a.size - 1) / a.size = 1 := by
+    apply Nat.div_eq_of_lt_le <;> omega
+  simp [hkdf, hkdfExpand, e, hkdfExpandAux]
+
+/-- SP 800-38B, complete final block: mask with K1 = dbl(E_K(0)) -/
+theorem cmacWith_complete (enc : Bytes → Bytes) (m : Bytes) (n : Nat) (hn : 0 < n) (hm : m.length = 16 * n) :
+    cmacWith enc m = cbcMac enc (m.take (16 * (n - 1)) ++
+      xorBytes (m.drop (16 * (n - 1))) (cmacDbl (enc (zeros 16)))) := by
+  have h0 : m.length ≠ 0 := by omega
+  have hb : blocksFor m.length = n := by unfold blocksFor; omega
+  have hl : (m.drop (16 * (n - 1))).length = 16 := by simp; omega
+  simp [cmacWith, h0, hb, hl]
+
+/-- SP 800-38B, incomplete (or absent) final block: pad `10…0`, mask with K2 = dbl(K1) -/
+theorem cmacWith_partial (enc : Bytes → Bytes) (m : Bytes) (hm : m.length % 16 ≠ 0 ∨ m.length = 0) :
+    cmacWith enc m = cbcMac enc (m.take (16 * (m.length / 16)) ++
+      xorBytes (m.drop (16 * (m.length / 16)) ++ [0x80] ++ zeros (15 - m.length % 16))
+        (cmacDbl (cmacDbl (enc (zeros 16))))) := by
+  by_cases h0 : m.length = 0
+  · have : m = [] := List.eq_nil_of_length_eq_zero h0
+    subst this
+    simp [cmacWith]
+  · have hr : m.length % 16 ≠ 0 := by
+      rcases hm with h | h
+      · exact h
+      · exact absurd h h0
+    have hb : blocksFor m.length - 1 = m.length / 16 := by unfold blocksFor; omega
+    have hl : (m.drop (16 * (m.length / 16))).length = m.length % 16 := by simp; omega
+    have hne : ¬ m.length % 16 = 16 := by omega
+    simp [cmacWith, h0, hb, hl, hne]
+
+theorem cmacDbl_length (b : Bytes) : (cmacDbl b).length = 16 := by simp [cmacDbl, beEnc_length]
+
+end macs
+
 end SpsdkVerif.Crypto
